@@ -176,6 +176,35 @@ impl ElementRaw {
         }
     }
 
+    /// get the path of `element` while self is locked; `element` might be located below self
+    fn path_of_element_unchecked(&self, self_weak: &WeakElement, element: &Element) -> Result<String, AutosarDataError> {
+        let mut path_components: Vec<String> = vec![];
+        let mut cur_elem_opt = Some(element.clone());
+        while let Some(cur_elem) = &cur_elem_opt {
+            if cur_elem.downgrade() == *self_weak {
+                // self is a parent of element: continue with the path of self instead of trying to lock self again
+                let mut path = self.path_unchecked()?;
+                for name in path_components.iter().rev() {
+                    path.push('/');
+                    path.push_str(name);
+                }
+                return Ok(path);
+            }
+            if let Some(name) = cur_elem
+                .0
+                .try_read_for(std::time::Duration::from_millis(10))
+                .ok_or(AutosarDataError::ParentElementLocked)?
+                .item_name()
+            {
+                path_components.push(name);
+            }
+            cur_elem_opt = cur_elem.parent()?;
+        }
+        path_components.push(String::new());
+        path_components.reverse();
+        Ok(path_components.join("/"))
+    }
+
     fn path_unchecked(&self) -> Result<String, AutosarDataError> {
         let mut path_components = vec![];
 
@@ -859,20 +888,60 @@ impl ElementRaw {
             element: move_element.element_name(),
         })?;
 
-        // collect the paths of all identifiable elements under new_element before moving it
-        let original_paths: Vec<String> = move_element
-            .elements_dfs()
-            .filter_map(|(_, e)| {
-                if e.element_type().is_named() {
-                    e.path().ok()
+        // If move_element is located somewhere below self, then its path can't be determined in the normal way, because
+        // that would need a lock on self, which is already held by the caller.
+        let src_path_prefix = self.path_of_element_unchecked(&self_weak, move_element)?;
+        let dest_path_prefix = self.path_unchecked()?;
+
+        // collect the paths of all identifiable elements under move_element before moving it
+        // these are constructed from src_path_prefix and the names found on the way down, for the same reason
+        let mut original_paths: Vec<String> = Vec::new();
+        let mut name_stack: Vec<Option<String>> = Vec::new();
+        for (depth, elem) in move_element.elements_dfs() {
+            let item_name = if elem.element_type().is_named() {
+                // a name that can't be read because the element is locked must not be mistaken for a missing name
+                let elem_locked = elem
+                    .0
+                    .try_read_for(Duration::from_millis(10))
+                    .ok_or(AutosarDataError::ParentElementLocked)?;
+                if let Some(ElementContent::Element(first_sub_elem)) = elem_locked.content.first() {
+                    let first_sub_elem_locked = first_sub_elem
+                        .0
+                        .try_read_for(Duration::from_millis(10))
+                        .ok_or(AutosarDataError::ParentElementLocked)?;
+                    if first_sub_elem_locked.elemname == ElementName::ShortName {
+                        first_sub_elem_locked
+                            .character_data()
+                            .and_then(|cdata| cdata.string_value())
+                    } else {
+                        None
+                    }
                 } else {
                     None
                 }
-            })
-            .collect();
-
-        let src_path_prefix = move_element.0.read().path_unchecked()?;
-        let dest_path_prefix = self.path_unchecked()?;
+            } else {
+                None
+            };
+            if depth == 0 {
+                // the path of move_element itself is the src_path_prefix
+                if item_name.is_some() {
+                    original_paths.push(src_path_prefix.clone());
+                }
+            } else {
+                name_stack.truncate(depth - 1);
+                if let Some(name) = &item_name {
+                    let mut path = src_path_prefix.clone();
+                    for part in name_stack.iter().flatten() {
+                        path.push('/');
+                        path.push_str(part);
+                    }
+                    path.push('/');
+                    path.push_str(name);
+                    original_paths.push(path);
+                }
+                name_stack.push(item_name);
+            }
+        }
 
         // only an identifiable element gets a new unique name at the destination. If the moved element is not identifiable,
         // then the identifiable elements it contains must not collide with elements that already exist at the destination
